@@ -91,6 +91,9 @@ class TALFileHandler(FileHandler):
             self.entry.encodedmimetype = None
             self.entry.realencoding = self.entry.encoding
             self.entry.encoding = None
+            # The client receives the expansion, not the template source:
+            # the size of the file says nothing about the response.
+            self.entry.size = None
             self.entry.type = self.entry.guesstype()
 
         return self.entry
